@@ -307,8 +307,13 @@ def gen_cycle_design(r, wordlevel=False):
         fr = lambda width: ["slice", ["sig", r.choice(["f0", "f1"]), 4, False], 0, width, None]
         c = r.random()
         if wordlevel:
-            op = r.choice(["add", "sub", "shl", "lt", "mul"])
-            e = ["slice", [op, src(tw), fr(min(tw, 2)) if op == "shl" else src(tw)], 0, tw, None]
+            op = r.choice(["add", "sub", "shl", "lt", "mul", "bit_select", "word_select", "bit_select"])
+            if op in ("bit_select", "word_select"):
+                # a part of a wider source chosen by a free offset: every value bit can reach the output
+                sw_ = min(tw + r.randint(1, 2), 4)
+                e = ["slice", [op, src(sw_), ["slice", ["sig", "f0", 4, False], 0, 2, None], max(tw, 2) if op == "bit_select" else tw], 0, tw, None]
+            else:
+                e = ["slice", [op, src(tw), fr(min(tw, 2)) if op == "shl" else src(tw)], 0, tw, None]
         elif c < 0.25:
             e = src(tw)
         elif c < 0.4:
@@ -333,6 +338,10 @@ def gen_cycle_design(r, wordlevel=False):
         if r.random() < 0.12:
             kind = "sync"        # a register in the loop breaks it
         stmts.append({"place": place, "domain": kind, "target": ["slice", ["sig", n, w, False], lo, hi], "rhs": e, "cond": cond})
+        if kind == "comb" and r.random() < 0.3:
+            # the same bits assigned again under a condition: the first assignment becomes the default of the second
+            stmts.append({"place": place, "domain": kind, "target": ["slice", ["sig", n, w, False], lo, hi], "rhs": r.choice([src(tw), fr(tw), ["inv", src(tw)]]),
+                          "cond": ["slice", r.choice([src(1), ["sig", "f2", 1, False]]), 0, 1, None]})
     return {"signals": sigs, "free": free, "stmts": stmts, "wordlevel": wordlevel}
 
 
@@ -638,6 +647,15 @@ def corner_cycles():
     out.append({"signals": {"a0": 1, "a1": 1}, "free": free, "wordlevel": False,
                 "stmts": [{"place": "c1", "domain": "comb", "target": T_("a0", 1, 0, 1), "rhs": sl("f0", 4, 0, 1),
                            "cond": [["elif", sl("a0", 1, 0, 1), sl("f1", 4, 1, 2)]]}]})
+    # a loop through the DEFAULT of a conditional override: a = b; If(c): a = 0;  b = ~a
+    out.append({"signals": {"a0": 2, "a1": 2}, "free": free, "wordlevel": False,
+                "stmts": [{"place": "top", "domain": "comb", "target": T_("a0", 2, 0, 2), "rhs": sl("a1", 2, 0, 2), "cond": None},
+                          {"place": "top", "domain": "comb", "target": T_("a0", 2, 0, 2), "rhs": sl("f0", 4, 0, 2), "cond": sl("f1", 4, 0, 1)},
+                          {"place": "c1", "domain": "comb", "target": T_("a1", 2, 0, 2), "rhs": ["inv", sl("a0", 2, 0, 2)], "cond": None}]})
+    # a loop through a part-select with a free offset: a[1] = a.bit_select(off, 2)[0]
+    out.append({"signals": {"a0": 4, "a1": 1}, "free": free, "wordlevel": True,
+                "stmts": [{"place": "top", "domain": "comb", "target": T_("a0", 4, 1, 2),
+                           "rhs": ["slice", ["bit_select", ["sig", "a0", 4, False], sl("f0", 4, 0, 2), 2], 0, 1, None], "cond": None}]})
     # a loop broken by a register
     out.append({"signals": {"a0": 2, "a1": 2}, "free": free, "wordlevel": False,
                 "stmts": [{"place": "c2", "domain": "sync", "target": T_("a0", 2, 0, 2), "rhs": sl("a1", 2, 0, 2), "cond": None},
